@@ -49,13 +49,24 @@ func init() {
 	executors["rp-complete"] = func(o Op) string {
 		kp := execKey(o.str("key"))
 		m := unhx(o["m"])
-		cred := issueCred(kp, unhx(o["secret"]), []*big.Int{m, bi(5)})
+		// layout: the credential has `nattr` attributes (default 2), the statement is about attribute
+		// `idx` (default 1), the attributes in `disclosed` (default [2]) are disclosed
+		nattr, idx, disclosed := 2, 1, []int{2}
+		if o["nattr"] != nil {
+			nattr, idx, disclosed = o.int("nattr"), o.int("idx"), intsOf(o["disclosed"])
+		}
+		attrs := make([]*big.Int, nattr)
+		for i := range attrs {
+			attrs[i] = bi(int64(5 + i))
+		}
+		attrs[idx-1] = m
+		cred := issueCred(kp, unhx(o["secret"]), attrs)
 		st := &rangeproof.Statement{Sign: int(unhx(o["sign"]).Int64()), Factor: uint(unhx(o["factor"]).Uint64()), Bound: unhx(o["bound"])}
 		if n := o.int("table"); n > 0 {
 			st.Splitter = squaresTable(int64(n - 1))
 		}
 		ctx, nonce := bi(7), bi(9)
-		proof, err := cred.CreateDisclosureProof([]int{2}, map[int][]*rangeproof.Statement{1: {st}}, false, ctx, nonce)
+		proof, err := cred.CreateDisclosureProof(disclosed, map[int][]*rangeproof.Statement{idx: {st}}, false, ctx, nonce)
 		if err != nil {
 			return "err"
 		}
@@ -64,7 +75,7 @@ func init() {
 		if v != "accept" {
 			return "built-but-" + v
 		}
-		if !proof.RangeProofs[1][0].Proves(st) {
+		if !proof.RangeProofs[idx][0].Proves(st) {
 			return "built-but-not-reported"
 		}
 		return "ok accept proves"
@@ -421,6 +432,28 @@ func genC13(g *Rng, tier string, emit func(Op)) {
 				}
 			}
 			return o
+		}
+		// where the attribute sits: more attributes, the statement on the last / a middle one, with
+		// none, some or all of the others disclosed
+		{
+			mm := g.bits(60)
+			for _, lay := range []struct {
+				nattr, idx int
+				disclosed  []int
+			}{{5, 5, nil}, {5, 5, []int{1}}, {5, 5, []int{1, 2}}, {5, 5, []int{2, 3}}, {5, 5, []int{1, 2, 3, 4}}, {5, 3, []int{1, 5}}, {5, 1, []int{2, 3, 4, 5}},
+				{4, 4, []int{3}}, {3, 2, []int{1, 3}}, {6, 6, []int{5}}} {
+				if lay.nattr+1 > len(kp.pk.R) {
+					continue // the key has too few bases for this credential
+				}
+				for _, table := range []int{0, tableLimit + 1} {
+					for _, sign := range []int64{1, -1} {
+						bound := new(big.Int).Sub(mm, bi(5*sign))
+						o := mk(sign, 1, bound, mm, table, "layout")
+						o["nattr"], o["idx"], o["disclosed"] = lay.nattr, lay.idx, intsAny(lay.disclosed)
+						emit(o)
+					}
+				}
+			}
 		}
 		m := g.bits(60)
 		// dense window around equality, both signs, both splitters
